@@ -9,6 +9,7 @@ import (
 	"sort"
 	"strings"
 
+	_ "github.com/invopop/gobl" // registers regimes, addons and schemas
 	"github.com/invopop/gobl/bill"
 	"github.com/invopop/gobl/cal"
 	"github.com/invopop/gobl/cbc"
